@@ -147,7 +147,16 @@ BadElems == {"lit:[1.5,null]"}
 \* without host, padded upstreams, ...).  Nothing in the spec depends on
 \* their content except that none of them is an IP address.
 DegKinds == {"blank", "tab", "hash", "lbr", "lbrs", "lbrss", "scheme", "quicnohost", "padded"}
-DegLit   == [k \in DegKinds |-> "deg:" \o k]
+\* Multi-line strings that the YAML encoder of the code cannot write in a form
+\* that reads back as the same string (first character a tab; line breaks
+\* only; leading line break), put into keys no step touches.  The ideal
+\* outcome keeps them; since the encoder cannot, refusing the upgrade with
+\* the file unchanged is the other admissible outcome (Unwritable below).
+MLKinds  == {"tabml", "nlonly", "nl2", "leadnl"}
+DegLit   == [k \in DegKinds \cup MLKinds |-> "deg:" \o k]
+\* (Minus zero, -0.0, is in the same class: the encoder writes "-0", which
+\* reads back as the integer 0 and is written as "0" the next time.)
+UnwritableV == {DegLit[k] : k \in MLKinds} \cup {"mllist:", "negz:"}
 OddStrs  == "deglist:"
 DotList  == "lit:[\".\",\"a\",1.5]"
 \* Lists of records with elements of different shapes.  The three filter
@@ -180,8 +189,14 @@ BaseDocs == [v \in 0..Last |->
                       ELSE Absent]]
 
 \* What YAML remembers of a Go value.
-SerT == [dur |-> "str", umode |-> "str", strs |-> "list"]
-Ser(d) == [k \in Keys |-> IF d[k].t \in DOMAIN SerT THEN C(SerT[d[k].t], d[k].v) ELSE d[k]]
+\* (ifloat: a float with a small integral value, 7.0 / 1e3 / !!float 5 / -0.0:
+\* the YAML encoder writes it without a fractional part, so a file written in
+\* between reads it back as an integer.  bfloat: an integral float from 1e6
+\* on, which the encoder writes in exponent form: it stays a float.)
+SerT == [dur |-> "str", umode |-> "str", strs |-> "list", ifloat |-> "int"]
+Ser(d) == [k \in Keys |-> IF d[k].t \in DOMAIN SerT
+                             THEN C(SerT[d[k].t], IF d[k].v = "negz:" THEN "lit:0" ELSE d[k].v)
+                           ELSE d[k]]
 
 \* --------------------------------------------------------------- outcomes
 ErrO  == [e |-> TRUE]
@@ -202,6 +217,12 @@ FV(c, T) ==
     IF c.t = "absent" THEN {VNo}
     ELSE IF T = "any" THEN {VYes(c)}
     ELSE IF c.t = T THEN {VYes(c)}
+    \* A small integral float IS an integer on every path that writes the file
+    \* before the step that reads it: the only reading that does not depend on
+    \* the path is the integer.  (A large one stays a float on every path:
+    \* refusing it or taking the integer are both path-independent.)
+    ELSE IF T = "int" /\ c.t = "ifloat" THEN {VYes(C("int", IF c.v = "negz:" THEN "lit:0" ELSE c.v))}
+    ELSE IF T = "int" /\ c.t = "bfloat" THEN {VErr, VYes(C("int", c.v))}
     ELSE {VErr, VNo, VYes(Zero(T))}
 VOf(w) == IF w.k = "yes" THEN w.c.v ELSE "none"
 
@@ -589,7 +610,8 @@ StampErr(d) == d["schema_version"].t \notin {"absent", "int"} \/ VerOf(d) = -1
 \* "\in {e}" idiom wherever an expensive value is used more than once.)
 Migrate(d, target) ==
     LET s == VerOf(d) IN
-    CHOOSE r \in {[err |-> StampErr(d) \/ s > target \/ HasErr(O),
+    CHOOSE r \in {[err |-> StampErr(d) \/ s > target \/ HasErr(O)
+                             \/ (s >= 0 /\ s < target /\ \E k \in Keys : d[k].v \in UnwritableV),
                    same |-> s = target,
                    oks |-> {Ser(x) : x \in OkDocs(O)}]
                   : O \in {IF s >= 0 /\ s < target THEN Run({Ok(d)}, s, target) ELSE {}}} : TRUE
@@ -608,7 +630,7 @@ DevKinds(v, k) ==
         \* a key the golden file does not have but a later step looks at,
         \* or a key nobody knows
         (IF k \in RecKeys(v) THEN {"recs"} ELSE {}) \cup
-        (IF k \in {"zz_extra", "dns.zz_extra", "cl0.zz_extra"} THEN {"str"}
+        (IF k \in {"zz_extra", "dns.zz_extra", "cl0.zz_extra"} THEN {"str"} \cup MLKinds
          ELSE IF k \in ConcernedFrom(v)
            THEN {"null", "float"} \cup (IF k \in SectionKeys THEN {"empty"} ELSE {})
                   \* lists a step walks that the golden file happens not to have
@@ -622,6 +644,11 @@ DevKinds(v, k) ==
            \* converts or multiplies, strings a step parses or hashes, lists a
            \* step walks
            \cup (IF c.t = "int" /\ k \in ConcFrom[v] THEN {"neg", "p65535", "p65536", "huge"} ELSE {})
+           \* integers in float spelling
+           \cup (IF c.t = "int" THEN {"fdot"} ELSE {})
+           \cup (IF c.t = "int" /\ k \in ConcFrom[v] THEN {"fexp", "ftag", "fnegzero", "fbig"} ELSE {})
+           \cup (IF k = "cl0.name" THEN MLKinds ELSE {})
+           \cup (IF k = "user_rules" THEN {"mllist"} ELSE {})
            \cup (IF c.t = "str" /\ k \in ConcFrom[v] THEN {"estr", "blank"} ELSE {})
            \cup (IF c.t = "str" /\ k \in ConcFrom[v]
                      /\ k \in {"bind_host", "auth_pass", "auth_name", "cl0.ip", "cl0.mac", "fl0.url"}
@@ -663,7 +690,13 @@ DevCell(k, c, kind) ==
       [] kind = "p65536" -> C("int", "lit:65536")
       [] kind = "huge" -> C("int", Huge)
       [] kind = "estr" -> C("str", ZS)
-      [] kind \in DegKinds -> C("str", DegLit[kind])
+      [] kind \in DegKinds \cup MLKinds -> C("str", DegLit[kind])
+      [] kind = "mllist" -> C("list", "mllist:")
+      [] kind = "fdot" -> C("ifloat", "lit:7")
+      [] kind = "fexp" -> C("ifloat", "lit:1000")
+      [] kind = "ftag" -> C("ifloat", "lit:5")
+      [] kind = "fnegzero" -> C("ifloat", "negz:")
+      [] kind = "fbig" -> C("bfloat", "lit:2000000")
       [] kind = "v6" -> C("str", "lit:\"::1\"")
       [] kind = "hostport" -> C("str", "lit:\"127.0.0.1:80\"")
       [] kind = "long" -> C("str", LongStr)
